@@ -332,6 +332,85 @@ func runC06(c *fw.Ctx) {
 		})
 	}
 
+	// (c1b) one node in two files of a package: the files are restored by one Restorer (as a package's
+	// files are), the second restore must reject the node that was already emitted into the first file
+	const twoSrc = "package p\n\nfunc a() {\n\tx := f(1)\n}\n\nvar v = 1\n"
+	cross := []struct {
+		name string
+		do   func(f1, f2 *dst.File, cl bool)
+	}{
+		{"Decl in two files", func(f1, f2 *dst.File, cl bool) { f2.Decls = append(f2.Decls, pickNode(f1.Decls[1], cl).(dst.Decl)) }},
+		{"Stmt in two files", func(f1, f2 *dst.File, cl bool) {
+			b1, b2 := f1.Decls[0].(*dst.FuncDecl).Body, f2.Decls[0].(*dst.FuncDecl).Body
+			b2.List = append(b2.List, pickNode(b1.List[0], cl).(dst.Stmt))
+		}},
+		{"Expr in two files", func(f1, f2 *dst.File, cl bool) {
+			a1 := f1.Decls[0].(*dst.FuncDecl).Body.List[0].(*dst.AssignStmt)
+			a2 := f2.Decls[0].(*dst.FuncDecl).Body.List[0].(*dst.AssignStmt)
+			a2.Rhs[0] = pickNode(a1.Rhs[0], cl).(dst.Expr)
+		}},
+		{"Ident in two files", func(f1, f2 *dst.File, cl bool) {
+			f2.Decls[0].(*dst.FuncDecl).Name = pickNode(f1.Decls[0].(*dst.FuncDecl).Name, cl).(*dst.Ident)
+		}},
+		{"FuncType in two files", func(f1, f2 *dst.File, cl bool) {
+			f2.Decls[0].(*dst.FuncDecl).Type = pickNode(f1.Decls[0].(*dst.FuncDecl).Type, cl).(*dst.FuncType)
+		}},
+	}
+	for i, sh := range cross {
+		if !c.Mine(i) {
+			continue
+		}
+		for _, entry := range []string{"RestoreFile", "Fprint", "RestoreFile+Extras", "FileRestorer.RestoreFile"} {
+			c.Case("share-two-files:"+sh.name+"/"+entry, func() {
+				run := func(cl bool) (string, string) {
+					f1, err := decorator.Parse(twoSrc)
+					if err != nil {
+						panic(err)
+					}
+					f2, _ := decorator.Parse(twoSrc)
+					sh.do(f1, f2, cl)
+					rs := decorator.NewRestorer()
+					var out bytes.Buffer
+					var err2 error
+					sig, _ := fw.Try(func() {
+						switch entry {
+						case "Fprint":
+							if err2 = rs.Fprint(&out, f1); err2 == nil {
+								err2 = rs.Fprint(&out, f2)
+							}
+						case "FileRestorer.RestoreFile":
+							fr := rs.FileRestorer()
+							if _, err2 = fr.RestoreFile(f1); err2 == nil {
+								_, err2 = fr.RestoreFile(f2)
+							}
+						default:
+							rs.Extras = entry == "RestoreFile+Extras"
+							if _, err2 = rs.RestoreFile(f1); err2 == nil {
+								_, err2 = rs.RestoreFile(f2)
+							}
+						}
+					})
+					if err2 != nil {
+						return "", "error: " + err2.Error()
+					}
+					return out.String(), sig
+				}
+				if out, sig := run(false); sig == "" {
+					c.Violate("shared-node-accepted", "shared-node-accepted:two-files:"+sh.name+":"+entry, "one node ("+sh.name+") occurs in two files restored by one Restorer ("+entry+") and the second restore did not panic:\n"+out, twoSrc)
+				} else {
+					c.Count("shared_rejected", 1)
+				}
+				if _, sig := run(true); sig != "" {
+					c.Violate("cloned-node-rejected", "cloned-node-rejected:two-files:"+sh.name+":"+entry, sh.name+": two files, the second holding a clone, do not restore with one Restorer: "+sig, twoSrc)
+				} else {
+					c.Count("cloned_printed", 1)
+					c.Nontrivial("share-two-files", sh.name, entry)
+				}
+				c.Observe("shared_positions", "two-files:"+sh.name)
+			})
+		}
+	}
+
 	// (c2) sharing under import management: a path-carrying identifier is restored through the
 	// hand-written selector path
 	impShare := []struct {
